@@ -84,12 +84,25 @@ Theorem c20_no_lock_leak : lock_leak_sites = 0.
 Proof. reflexivity. Qed.
 Print Assumptions c20_no_lock_leak.
 
-(* every access of a field guarded by Group.mutex / ServerManager.mutex that a
-   goroutine can perform without holding the mutex is covered by the reviewed
-   whitelist (immutable after construction: reads only; self-synchronised) *)
+(* guarded fields ([guarded_by]): for every struct with a mutex, the sibling
+   fields that are accessed at least once under that mutex and written after
+   construction (plus the configured ones: all of logic.Group).  Every access of
+   such a field that a goroutine can perform without holding the mutex is
+   covered by the reviewed whitelist (immutable after construction: reads only;
+   self-synchronised) *)
 Theorem c20_fields_guarded : field_violations exempt_fields unguarded_accesses = [].
 Proof. vm_compute. reflexivity. Qed.
 Print Assumptions c20_fields_guarded.
+
+(* the discipline above is evaluated for EVERY mutex class that is a struct field
+   in lal or naza (Group, ServerManager, IpBlacklist, hls.ServerHandler,
+   rtsp.BaseInSession, base.PeriodRecord, naza's logger / task pool ...): each
+   class guards at least one inferred or configured field of its struct, or is
+   listed as guarding none *)
+Theorem c20_guard_classes_covered :
+  classes_covered mutex_field_classes guarded_by mutex_classes_without_guarded_fields = true.
+Proof. vm_compute. reflexivity. Qed.
+Print Assumptions c20_guard_classes_covered.
 
 (* the translator attributed every Lock / Unlock / Once.Do in lal and naza to a class *)
 Theorem c20_lock_sites_resolved : unresolved_lock_sites = 0.
